@@ -113,7 +113,14 @@ impl<R: BufRead> Iterator for Sequences<R> {
                     );
                     return Some(Sequence {
                         n: self.current_record - 1,
-                        id: record.id().to_string(),
+                        // the id is the first word of the header: the FASTQ parser splits at a blank only,
+                        // so "@read<TAB>tag" would otherwise keep the tag in the id
+                        id: record
+                            .id()
+                            .split_ascii_whitespace()
+                            .next()
+                            .unwrap_or("")
+                            .to_string(),
                         seq: record.seq().to_vec(),
                     });
                 }
